@@ -12,7 +12,7 @@ link_extra = ("-Wl,--wrap=malloc", "-Wl,--wrap=free")
 rule = ("scripts = 'i reset' followed by identifier ops (new <size> | alloc <len> | node <len> | set k <hex|rep:hh:n|null> [len] | "
         "copy k <j|null> | cmp k <bytes> [len] | ineq k j | free k | tinit <j|null> | tfini k | setself k off len (name inside the "
         "identifier's own content) | sinit / ninit (static initialisers MPT_IDENTIFIER_INIT / MPT_NODE_INIT in exact-size blocks) | setfail k name [len] "
-        "(set while malloc fails) | locate k pos name / next k name (mpt_node_locate/mpt_node_next over the list of node identifiers)); "
+        "(set while malloc fails) | tfiniset k name [len] (traits fini, then set on the same storage without a new init) | locate k pos name / next k name (mpt_node_locate/mpt_node_next over the list of node identifiers)); "
         "second part: the C++ class mpt::identifier (xi new/copyctor/set/assign/equal/name/free) and the item containers built on it "
         "(xi gappend j = item_group::append(const identifier *, metatype *), xi aappend name [len] = item_array::append: the stored "
         "item's identifier becomes a new slot and is read back; names with zero bytes inside/at the end and zero-filled charset-0 content); stream 1 = every triple "
@@ -364,6 +364,19 @@ def _cmpzero():
     return out
 
 
+def _fini_reuse():
+    """an identifier ended through the traits' fini whose storage is used again without a new init"""
+    out = []
+    for size in (16, 32, 64):
+        mx = size - 4
+        for cur in ("-", _data(3), _data(mx - 1), _data(mx), _data(mx + 5), "rep:61:300", "null 3", "null %d" % (mx + 5)):
+            for nxt in ("-", _data(2, 0x62), _data(mx - 1, 0x62), _data(mx, 0x62), _data(mx + 9, 0x62), "null 0", "null 2", "null %d" % (mx + 1)):
+                out.append(("finire:%d:%s:%s" % (size, cur.replace(" ", "_")[:12], nxt.replace(" ", "_")[:12]),
+                            ["i reset", "i new %d" % size, "i new %d" % size, "i set 0 " + cur, "i copy 1 0", "i tfiniset 0 " + nxt, "i ineq 0 1", "i copy 1 0",
+                             "i tfiniset 0 " + cur, "i tfiniset 0 " + cur, "i ineq 0 1", "i tfini 0", "i free 1"]))
+    return out
+
+
 def _cmpnull():
     """mpt_identifier_compare with a zero name pointer (outside the property: code against model only) and the
     argument checks in front of it"""
@@ -469,6 +482,7 @@ def scripts(tier, seed, scale=1):
                           "i set 0 6162 1", "i free 0", "i set 0 61"]))
     out += _self_and_nodes(tier)
     out += _cmpnull()
+    out += _fini_reuse()
     out += _cmpzero()
     out += _static_and_nomem()
     out += _random(tier, seed, scale)
